@@ -124,6 +124,14 @@ def instances(tier="quick"):
     add("pushl %s" % MEMS[0], "push", 32, "m")
     add("popl %s" % MEMS[0], "pop", 32, "m")
     add("popl 8(%esp)", "pop", 32, "m_esp")
+    # operands addressed through the stack pointer the instruction itself moves: push reads its operand with the OLD esp, pop
+    # computes its destination with the NEW one
+    for t in ("pushl 8(%esp)", "pushl (%esp)", "pushw 2(%esp)", "pushl 4(%esp,%ecx,2)"):
+        add(t, "push", 16 if t.startswith("pushw") else 32, "m_esp")
+    for t in ("popl (%esp)", "popw 4(%esp)", "popl 4(%esp,%ecx,2)"):
+        add(t, "pop", 16 if t.startswith("popw") else 32, "m_esp")
+    add("xchgl %eax, (%esp)", "xchg", 32, "m_esp")
+    add("addl %esp, 4(%esp)", "add", 32, "m_esp")
     for im in (0, 0x7f, 0x80, 0xff, 0x12345678, 0xffffffff):
         add("pushl $0x%x" % im, "push", 32, "i")
     add("pushw $0x1234", "push", 16, "i")
@@ -149,4 +157,13 @@ def instances(tier="quick"):
     for op in ("loop", "loope", "loopne", "jecxz"):
         add("%s .+0x12" % op, op, 32, "rel8", targets=[0x12])
         add("%s .-0x40" % op, op, 32, "rel8", targets=[-0x40])
+    # the counter of loop / jecxz is selected by the ADDRESS size (67: cx), not by the operand size (66: still ecx; a taken branch then
+    # truncates eip and faults in the executor, so only the not-taken outcome of the 66 forms is observed)
+    add("jcxz .+0x12", "jecxz", 32, "rel8-a16", targets=[0x12])
+    for op in ("loop", "loope", "loopne"):
+        add("addr16 %s .+0x12" % op, op, 32, "rel8-a16", targets=[0x12])
+    add("addr16 loop .-0x40", "loop", 32, "rel8-a16", targets=[-0x40])
+    add(".byte 0x66, 0xe3, 0x0f", "jecxz", 32, "rel8-o16", targets=[0x12])
+    add(".byte 0x66, 0xe2, 0x0f", "loop", 32, "rel8-o16", targets=[0x12])
+    add(".byte 0x66, 0xe1, 0x0f", "loope", 32, "rel8-o16", targets=[0x12])
     return out
